@@ -21,6 +21,7 @@ INVARIANT FragmentAccounting
 INVARIANT AcceptMeansCleanEnd
 INVARIANT AcceptMeansMinimalVersion
 INVARIANT OutputCount
+INVARIANT MachineMatchesDeclarative
 VIEW View
 CHECK_DEADLOCK FALSE
 """
